@@ -80,6 +80,15 @@ def lint_coq():
                 depth -= 1
             elif re.match(r"(Variable|Variables|Hypothesis|Hypotheses|Context)\b", s) and depth == 0:
                 problems.append("%s:%d: %s outside a Section" % (os.path.relpath(f, ROOT), ln, s.split()[0]))
+    # property files hold statements only: every proof is `exact <lemma>`
+    for f in sorted(glob.glob(os.path.join(COQ, "Properties", "*.v"))):
+        src = strip_comments(open(f).read())
+        for m in re.finditer(r"Proof\.(.*?)Qed\.", src, re.S):
+            if not re.fullmatch(r"\s*exact\s+[A-Za-z0-9_.@' ()]+\.\s*", m.group(1)):
+                line = src.count("\n", 0, m.start()) + 1
+                problems.append("%s:%d: a proof in a property file is not `exact <lemma>`" % (os.path.relpath(f, ROOT), line))
+        if re.search(r"\b(Lemma|Definition|Fixpoint|Example|Ltac|Instance)\b", src):
+            problems.append("%s: a property file declares something other than theorems" % os.path.relpath(f, ROOT))
     for f in (os.path.join(COQ, "_CoqProject"),):
         if os.path.exists(f):
             txt = open(f).read()
